@@ -239,6 +239,15 @@ func (p *prop) Run(c core.Case, w *core.Worker) core.Result {
 							res.Fail("compile", "alone: unused import "+info.Root, fmt.Sprintf("value %d (%s = %s) rendered alone registers import %s %q which its text never uses - a file holding this literal and the imports it registered does not compile:\n%s", i, info.Root, clip(info.OrigDump, 300), name, path, clip(b1.String(), 500)), map[string]any{"i": i, "seed": seed})
 						}
 					}
+					bound := map[string]bool{}
+					for _, name := range tr1.Imports() {
+						bound[name] = true
+					}
+					for q := range used {
+						if !bound[q] {
+							res.Fail("compile", "alone: unbound qualifier "+info.Root, fmt.Sprintf("value %d (%s) rendered alone uses qualifier %q which none of the imports it registered binds (%v):\n%s", i, info.Root, q, tr1.Imports(), clip(b1.String(), 500)), map[string]any{"i": i, "seed": seed})
+						}
+					}
 					res.Inc("literals_checked_alone_against_their_own_imports")
 				}
 			}
